@@ -249,6 +249,7 @@ func Full(s *SvcSpec, r *RouteSpec) Tmpl {
 type Req struct {
 	Method  string            `json:"method"`
 	Path    string            `json:"path"`
+	RawPath string            `json:"raw_path,omitempty"` // URL.RawPath as a server sets it when the wire form is not the default encoding
 	HasCT   bool              `json:"has_ct,omitempty"`
 	CT      string            `json:"ct,omitempty"`
 	HasAcc  bool              `json:"has_accept,omitempty"`
@@ -263,5 +264,6 @@ func (r Req) Cond(name string) bool { return r.Hdr[name] == "1" }
 func (r Req) WithPath(p string) Req {
 	c := r
 	c.Path = p
+	c.RawPath = ""
 	return c
 }
